@@ -1729,7 +1729,15 @@ func (tx *Transaction) auditLogCollectFiles() []plugintypes.AuditLogTransactionR
 // This method helps the GC to clean up the transaction faster and release resources
 // It also allows caches the transaction back into the sync.Pool
 func (tx *Transaction) Close() error {
-	defer tx.WAF.txPool.Put(tx)
+	if tx.matchedRules == nil {
+		// Already closed and back in the pool (newTransaction hands the object out with an empty,
+		// non-nil list): putting it there again would give the same object to two transactions.
+		return nil
+	}
+	defer func() {
+		tx.matchedRules = nil
+		tx.WAF.txPool.Put(tx)
+	}()
 
 	var errs []error
 	if environment.HasAccessToFS {
